@@ -457,6 +457,8 @@ pub fn explore(ctx: &mut Ctx, label: &str) {
                     ctx.violation("Builder", "[builder] construction fails on valid facts", json!({"case": f.to_json()}));
                     continue;
                 };
+                // handles of another instance (same graph, no records) name the same terms
+                let skeleton = drive::build(&base, Mode::Minimal).ok();
                 for &root in &ids {
                     let below: Vec<u32> = ids.iter().copied().filter(|t| *t == root || r.terms[t].ancestors.contains(&root)).collect();
                     let mut leaf_sets: Vec<Vec<u32>> = vec![below.clone()];
@@ -464,6 +466,9 @@ pub fn explore(ctx: &mut Ctx, label: &str) {
                         leaf_sets.push(vec![*b]);
                     }
                     for leaves in leaf_sets {
+                        if let Some(sk) = &skeleton {
+                            super::c14::foreign_handles(ctx, &src, sk, &f, root, &leaves, "annotation patterns");
+                        }
                         ctx.transitions(1 + leaves.len() as u64);
                         let res = crate::ctx::guard(|| src.sub_ontology(src.hpo(root).unwrap(), leaves.iter().map(|l| src.hpo(*l).unwrap()).collect::<Vec<_>>()).map_err(|e| e.to_string()));
                         let case = || json!({"source": f.to_json(), "root": root, "leaves": leaves});
